@@ -1,6 +1,6 @@
 (* Property C10 — wait() is a barrier and always returns.
-   Only statements here; proofs are in CacheInv.v. *)
-From StrettoModel Require Import Base Metrics Policy Ttl Store Cache CacheProofs CacheInv.
+   Only statements here; proofs are in CacheInv.v and CacheFifo.v. *)
+From StrettoModel Require Import Base Metrics Sketch Bloom TinyLFU Policy Ttl Store Cache CacheProofs CacheInv CacheFifo.
 Open Scope N_scope.
 
 (* In every reachable state — every history, every interleaving of clients, processor and policy
@@ -30,3 +30,23 @@ Theorem C10_invariant_is_inductive :
   forall c st l st' o, WaitInv st -> cstep c st l = StepOk st' o -> WaitInv st'.
 Proof. exact WaitInv_step. Qed.
 Print Assumptions C10_invariant_is_inductive.
+
+(* ---- the barrier (proofs in CacheFifo.v) ---- *)
+
+(* The insert buffer is a FIFO that only the processor consumes: for every step of every actor the
+   buffer is unchanged, or a client appended one item, or the processor took the head item, or the
+   processor drained it whole (clear / stop). *)
+Theorem C10_buffer_is_fifo :
+  forall c st l st' o, cstep c st l = StepOk st' o -> buf_change st l st'.
+Proof. exact buffer_is_fifo. Qed.
+Print Assumptions C10_buffer_is_fifo.
+
+(* A wait marker is released only by the processor: when it takes the marker at the head of the
+   buffer — so everything that was queued ahead of it, in particular everything the same thread sent
+   before calling wait(), has been handled — or by a drain for clear() / at the stop request, which
+   discards what was ahead; (clear acknowledgements share the id space). *)
+Theorem C10_marker_released_only_by :
+  forall c st l st' o id,
+  cstep c st l = StepOk st' o -> mem_N id (s_done st) = false -> mem_N id (s_done st') = true -> release_cause st l id.
+Proof. exact marker_released_only_by. Qed.
+Print Assumptions C10_marker_released_only_by.
